@@ -89,6 +89,8 @@ func evalLine(line string) (out string) {
 		}
 	}()
 	switch f[0] {
+	case "E":
+		return evalExpand(unhx(f[1]))
 	case "V":
 		ok, _ := spdxexp.ValidateLicenses([]string{unhx(f[1])})
 		if ok {
@@ -218,6 +220,7 @@ func (c *Ctx) ask(line string) string {
 func (c *Ctx) S(e string, a []string) string { return after(c.ask("S " + hx(e) + " " + hxl(a))) }
 func (c *Ctx) V(e string) string             { return after(c.ask("V " + hx(e))) }
 func (c *Ctx) R(e string) string             { return after(c.ask("R " + hx(e))) }
+func (c *Ctx) E(e string) string             { return after(c.ask("E " + hx(e))) }
 func (c *Ctx) Q(e string, a []string) string { return after(c.ask("Q " + hx(e) + " " + hxl(a))) }
 func (c *Ctx) L(l []string) string           { return after(c.ask("L " + hxl(l))) }
 
